@@ -87,7 +87,190 @@ def gls_bounded(seed):
             'evaluations': n, 'failures': fails}
 
 
-QUICK_BOUNDED = [gls_bounded]
+def html_rendering_bounded(seed):
+    """the sentence of the property on enumerated small files: the real
+    generate_html on files of 1-4 lines over an alphabet with HTML-special
+    characters and empty lines, one or two matches (single characters, a
+    span over a line break, overlapping, adjacent), context 0 / 1 / large;
+    the numbered cells, stripped of tags and with entities decoded, must be
+    the source lines with these numbers, every match highlighted once in
+    place or in the overlap list, the highlighted text being its span"""
+    import html
+    import itertools
+    import random
+    import re
+    import types
+    from pyvc import replay as _r
+    gh = _r.real_module('yalafi.shell.genhtml')
+    ut = _r.real_module('yalafi.shell.utils')
+
+    def jget(dic, item, typ):
+        if not isinstance(dic, dict) or item not in dic or \
+                not isinstance(dic[item], typ):
+            raise SystemExit(1)
+        return dic[item]
+    gh.highlight_style = 'H'
+    gh.highlight_style_unsure = 'U'
+    gh.number_style = 'N'
+    rng = random.Random(seed)
+    lines_pool = ['ab <c>', 'x & "y"', '', 'zz', 'a  b', '<br>']
+    n, fails = 0, []
+
+    def strip(cell):
+        cell = re.sub(r'<span [^>]*>|</span>|<a [^>]*>|</a>', '', cell,
+                      flags=re.S)
+        cell = cell.replace('&ensp;', ' ')
+        return html.unescape(cell)
+    # systematic part: one file of five short lines, every set of one to
+    # three matches out of twelve spans (single characters, words, spans
+    # over one and several line breaks, nested and adjacent ones)
+    def run(tex, ms, ctx):
+        cmd = types.SimpleNamespace(context=ctx, link=False)
+        for m_ in (gh, ut):
+            m_.json_get = jget
+            m_.cmdline = cmd
+        src_lines = tex.split('\n')[:-1]
+        matches = [{
+            'offset': a, 'length': b - a, 'message': 'm<&>',
+            'rule': {'id': 'R', 'category': {'name': 'c'}},
+            'replacements': [{'value': '"v"'}],
+            'context': {'text': tex[a:b], 'offset': 0,
+                        'length': b - a}} for a, b in ms]
+        charmap = list(range(1, len(tex) + 1))
+        try:
+            r = gh.generate_html(tex, charmap, matches, 'f')
+        except Exception as e:      # noqa
+            return repr(e)
+        page = r[2]
+        rows = re.findall(
+            r'<tr>\n<td style="N" align="right" valign="top">'
+            r'(\d*)&nbsp;&nbsp;</td>\n<td>((?:.|\n)*?)</td>\n'
+            r'</tr>\n', page)
+        nums = [int(x) for x, _ in rows if x]
+        if nums != sorted(set(nums)):
+            return 'line numbers not increasing / repeated: %r' % nums
+        for num, cell in rows:
+            if num and (int(num) > len(src_lines) or strip(cell) !=
+                        src_lines[int(num) - 1]):
+                return 'row %s shows %r' % (num, strip(cell))
+        shown = set(nums)
+        for a, b in ms:
+            k = tex.count('\n', 0, a) + 1
+            if k not in shown:
+                return 'line %d of a match is not displayed' % k
+        hl = re.findall(r'<span style="H" title="[^"]*">'
+                        r'((?:.|\n)*?)</span>', page)
+        total = sum(len(strip(h).replace('\n', '')) for h in hl)
+        want = sum(len(tex[a:b].replace('\n', '')) for a, b in ms)
+        if total != want:
+            return 'highlighted %d characters, matches cover %d' % (total,
+                                                                    want)
+        return None
+    tex5 = 'aa bb\ncc dd\nee ff\ngg hh tt\nlast\n'
+    spans12 = [(0, 2), (3, 5), (3, 20), (6, 8), (9, 11), (12, 14), (3, 8),
+               (18, 20), (21, 23), (24, 26), (0, 26), (27, 31)]
+    for k in (1, 2, 3):
+        for ms in itertools.combinations(spans12, k):
+            if k == 3 and (sum(a + 3 * b for a, b in ms) + seed) % 2:
+                continue
+            for ctx in (0, 1):
+                n += 1
+                why = run(tex5, sorted(ms), ctx)
+                if why:
+                    fails.append({'tex': tex5, 'matches': sorted(ms),
+                                  'context': ctx, 'why': why})
+                    if len(fails) >= 3:
+                        return _hres(n, fails)
+    for nl in (1, 2, 3, 4):
+        for combo in itertools.product(range(len(lines_pool)), repeat=nl):
+            if nl >= 3 and rng.random() > (0.25 if nl == 3 else 0.04):
+                continue
+            tex = ''.join(lines_pool[i] + '\n' for i in combo)
+            src_lines = tex.split('\n')[:-1]
+            chars = [i for i, c in enumerate(tex) if c != '\n']
+            if not chars:
+                continue
+            spans = []
+            for _ in range(3):
+                a = rng.choice(chars)
+                b = min(len(tex) - 1, a + rng.choice((1, 1, 2, 5)))
+                spans.append((a, max(a + 1, b)))
+            for ctx in (0, 1, 10 ** 8):
+                cmd = types.SimpleNamespace(context=ctx, link=False)
+                for m_ in (gh, ut):
+                    m_.json_get = jget
+                    m_.cmdline = cmd
+                for ms in ([spans[0]], [spans[0], spans[1]],
+                           [spans[1], spans[2], spans[0]]):
+                    ms = sorted(ms)
+                    matches = [{
+                        'offset': a, 'length': b - a, 'message': 'm<&>',
+                        'rule': {'id': 'R', 'category': {'name': 'c'}},
+                        'replacements': [{'value': '"v"'}],
+                        'context': {'text': tex[a:b], 'offset': 0,
+                                    'length': b - a}} for a, b in ms]
+                    charmap = list(range(1, len(tex) + 1))
+                    n += 1
+                    try:
+                        r = gh.generate_html(tex, charmap, matches, 'f')
+                    except Exception as e:      # noqa
+                        fails.append({'tex': tex, 'matches': ms,
+                                      'context': ctx, 'why': repr(e)})
+                        if len(fails) >= 3:
+                            return _hres(n, fails)
+                        continue
+                    page = r[2]
+                    why = None
+                    rows = re.findall(
+                        r'<tr>\n<td style="N" align="right" valign="top">'
+                        r'(\d*)&nbsp;&nbsp;</td>\n<td>((?:.|\n)*?)</td>\n'
+                        r'</tr>\n', page)
+                    for num, cell in rows:
+                        if not num:
+                            continue
+                        k = int(num) - 1
+                        if k >= len(src_lines) or strip(cell) != \
+                                src_lines[k].replace('\t', ' ' * 8):
+                            why = 'row %s shows %r, source line is %r' % (
+                                num, strip(cell), src_lines[k]
+                                if k < len(src_lines) else None)
+                            break
+                    if why is None and ctx == 10 ** 8:
+                        nums = [int(x) for x, _ in rows if x]
+                        if nums != list(range(1, len(src_lines) + 1)):
+                            why = 'whole file expected, rows %r' % nums
+                    if why is None:
+                        hl = re.findall(r'<span style="H" title="[^"]*">'
+                                        r'((?:.|\n)*?)</span>', page)
+                        shown = ''.join(strip(h) for h in hl)
+                        want_total = sum(len(tex[a:b].replace('\n', ''))
+                                         for a, b in ms)
+                        if len(shown.replace('\n', '')) != want_total:
+                            why = 'highlighted %r (%d chars), matches ' \
+                                'cover %d' % (shown, len(shown), want_total)
+                    if why:
+                        fails.append({'tex': tex, 'matches': ms,
+                                      'context': ctx, 'why': why})
+                        if len(fails) >= 3:
+                            return _hres(n, fails)
+    return _hres(n, fails)
+
+
+def _hres(n, fails):
+    return {'name': 'html-cells-reproduce-the-source', 'bounded': True,
+            'bound': 'a five-line file with all sets of 1-2 and half of the '
+                     'sets of 3 matches out of 12 spans x context 0/1; files '
+                     'of 1-2 lines (all) and 3-4 lines (sampled) over 6 line '
+                     'texts x 3 match sets x context 0/1/whole file',
+            'evaluations': n, 'failures': fails}
+
+
+def _add_line_numbers(seed):
+    from props import bounded
+    return bounded.c16_add_line_numbers(seed)
+
+
+QUICK_BOUNDED = [gls_bounded, html_rendering_bounded, _add_line_numbers]
 
 TRUSTED = [
     're.sub with a single literal character as pattern and a literal replacement is a character-wise map (checked on all pairs '
